@@ -369,6 +369,21 @@ def build_graph(rng, root):
         with open(path, 'wb') as fh:
             fh.write(data)
     argv = [ambient.vflag(), 'build', os.path.join(root, 'out.p8'), '--lua', os.path.join(root, 'main.lua')]
+    if rng.random() < 0.3:
+        # other sections of the same build come from a cart in another directory, next to which files of the packages' names lie:
+        # a require() is looked up from the file that contains it
+        from .. import carts as _carts
+        art = os.path.join(root, 'assets', 'art.p8')
+        os.makedirs(os.path.dirname(art), exist_ok=True)
+        with open(art, 'wb') as fh:
+            fh.write(rc.write_p8(_carts.random_regions(rng, 'sparse')[0], b'art=1\n', version=8))
+        for nm in list(expected):
+            decoy = os.path.join(root, 'assets', nm.decode('latin-1') + '.lua')
+            if b'/' not in nm and nm.isascii() and not os.path.exists(decoy):
+                with open(decoy, 'wb') as fh:
+                    fh.write(b'decoy_from_assets=1\n')
+        argv += [rng.choice(('--gfx', '--sfx', '--music')), art]
+        feats.add('other_section_from_a_cart_in_another_directory')
     env = {}
     if lua_path_mode == 'arg_rel':
         argv += ['--lua-path', '?;?.lua;libs/?.lua']
@@ -483,6 +498,18 @@ def judge(ctx, g, root, case):
         d = seq_diff(toks[max(0, len(toks) - len(main)):], main)
         ctx.violation('built code does not end with the main program unchanged (first difference at main token %s)' % d, case)
         return
+    # the main program is one contiguous piece at the end: its comments and line breaks are where they were (token for token under the
+    # reference lexer, a quoted string by the bytes it denotes), nothing of it stands in front of the loader
+    all_main = reflex.lex(g['files']['main.lua'] if g['files']['main.lua'].endswith(b'\n') else g['files']['main.lua'] + b'\n')
+    all_built = reflex.lex(code if code.endswith(b'\n') else code + b'\n')
+    ctx.monitor('main_program_tails_compared')
+    tail = all_built[len(all_built) - len(all_main):]
+    for a, b in zip(all_main, tail) if len(all_built) >= len(all_main) else ():
+        same = (a.kind == b.kind and (a.value == b.value if (a.kind == 'string' and not a.long) else a.raw == b.raw))
+        if not same:
+            ctx.violation('the built code does not end with the main program as it was written: %s %r of the main file stands as %s %r' % (
+                a.kind, a.raw[:30], b.kind, b.raw[:30]), case)
+            return
     prefix = toks[:len(toks) - len(main)]
     heads = find_headers(prefix)
     # loader: `function require (` after the last package
@@ -703,7 +730,7 @@ def gates(m, tier):
               'require_form:stmt', 'require_form:assign', 'require_form:local', 'require_form:field', 'require_form:callarg',
               'require_form:chain', 'require_form:nestedfn', 'require_form:in_if', 'require_form:in_else', 'require_form:in_shortif',
               'require_form:in_loop', 'require_form:in_cond', 'error:missing', 'error:noargs', 'error:threeargs', 'error:nonstring',
-              'error:badoption', 'error:offpath_next_to_main', 'error:offpath_next_to_package', 'error:offpath_env', 'main_ends_with_return', 'blank_or_comment_between_require_and_parenthesis', 'required_name_with_doubled_separator', 'function_name_beginning_with_a_gameloop_name', 'gameloop_with_comment_before_or_code_after', 'gameloop_name_as_last_component', 'dotted_gameloop_name', 'package_name_non_ascii', 'directory_named_like_package', 'two_files_match_first_entry_wins', 'found_via_pattern_with_placeholder_in_directory',
+              'error:badoption', 'error:offpath_next_to_main', 'error:offpath_next_to_package', 'error:offpath_env', 'main_ends_with_return', 'blank_or_comment_between_require_and_parenthesis', 'required_name_with_doubled_separator', 'function_name_beginning_with_a_gameloop_name', 'other_section_from_a_cart_in_another_directory', 'gameloop_with_comment_before_or_code_after', 'gameloop_name_as_last_component', 'dotted_gameloop_name', 'package_name_non_ascii', 'directory_named_like_package', 'two_files_match_first_entry_wins', 'found_via_pattern_with_placeholder_in_directory',
               'package_without_remaining_code:empty_file', 'package_without_remaining_code:comments_only', 'package_without_remaining_code:game_loop_only', 'one_file_two_names_opposite_options', 'main_starts_with_comment'):
         if f.get(k, 0) < 2:
             missed.append('%s seen %d times' % (k, f.get(k, 0)))
